@@ -15,7 +15,7 @@ Definition check_tree (c : tree_case) : list nat :=
   match export (tc_orm c) (tc_models c) (tc_before c) with
   | Ok t =>
       (if tc_ok c then [] else [1%nat]) ++ (if same_tree t (tc_after c) then [] else [2%nat])
-  | Err XNormalize =>
+  | Err XNormalize | Err XCollision =>      (* refusals before anything is touched: exit 1, tree as before *)
       (if tc_ok c then [1%nat] else []) ++ (if same_tree (tc_before c) (tc_after c) then [] else [3%nat])
   | Err _ => if tc_ok c then [1%nat] else []
   end.
@@ -29,11 +29,5 @@ Fixpoint tree_mismatches_from (i : nat) (cs : list tree_case) : list (nat * list
               end
   end.
 
-(* findings: (a) the module path written into mod.rs differs from where the entity file was put
-   (a '.' inside the file stem, or a directory name that sanitize_filename changes);
-   (b) two model files with one output path, or an output file called mod.rs *)
-Definition known_C20_chain_name (c : tree_case) : bool :=
-  existsb (fun m => negb (chain_names_ok m)) (tc_models c).
-Definition known_C20_collision (c : tree_case) : bool :=
-  negb (no_collision (tc_orm c) (tc_models c)).
-Definition classify_tree (c : tree_case) : list bool := [known_C20_chain_name c; known_C20_collision c].
+(* no open finding of this layer is left for C20 *)
+Definition classify_tree (c : tree_case) : list bool := [].
